@@ -169,6 +169,7 @@ func verifC09Servers(maxLen int) {
 	fam := verifChoose("family", len(verifFamilies))
 	templates := verifFamilies[fam]
 	doc, ops := verifDoc(templates, verifChoose("postOn", len(templates)))
+	svName := "b"
 	sv := 1 + verifChoose("servers", 5)
 	enumOnly := sv == 5 // as 3, the variable restricted to an enum
 	if enumOnly {
@@ -183,7 +184,11 @@ func verifC09Servers(maxLen int) {
 	case 2:
 		doc.Servers = openapi3.Servers{{URL: "https://h.example/v1"}}
 	case 3:
-		doc.Servers = openapi3.Servers{{URL: "https://h.example/{b}", Variables: map[string]*openapi3.ServerVariable{"b": {Default: "v1"}}}}
+		// the server's variable is called b, or x like the variable of most path templates
+		if !enumOnly && verifChoose("serverVarName", 2) == 1 {
+			svName = "x"
+		}
+		doc.Servers = openapi3.Servers{{URL: "https://h.example/{" + svName + "}", Variables: map[string]*openapi3.ServerVariable{svName: {Default: "v1"}}}}
 		if enumOnly {
 			doc.Servers[0].Variables["b"].Enum = []string{"v1", "v3"}
 		}
@@ -201,7 +206,8 @@ func verifC09Servers(maxLen int) {
 	path := string(bs)
 	method := []string{"GET", "POST", "PUT"}[verifChoose("method", 3)]
 	// /v1a: the server's base followed by more of the same segment is not a URL of that server
-	reqBase := []string{"", "/v1", "/v2", "/v1a"}[verifChoose("reqBase", 4)]
+	// /V1: paths are case-sensitive, the base path of a server included
+	reqBase := []string{"", "/v1", "/v2", "/v1a", "/V1"}[verifChoose("reqBase", 5)]
 	if sv == 4 {
 		reqBase = "/v1/a" // also a URL of the first server with the path "/a"+path
 	}
@@ -230,9 +236,9 @@ func verifC09Servers(maxLen int) {
 		// first segment of the symbolic path (concrete split points only: handled by the base cases)
 		if reqBase != "" {
 			serverOK, rest = hostOK, path
-			serverVars = map[string]string{"b": reqBase[1:]}
+			serverVars = map[string]string{svName: reqBase[1:]}
 			if enumOnly && reqBase != "/v1" {
-				serverOK = false // /v2, /v1a: outside the variable's enum [v1, v3]
+				serverOK = false // /v2, /v1a, /V1: outside the variable's enum [v1, v3]
 			}
 		}
 	}
@@ -297,12 +303,17 @@ func verifC09Servers(maxLen int) {
 				same = false
 			}
 		}
+		union := len(want)
 		for k, v := range serverVars {
+			if _, clash := want[k]; clash {
+				continue // one name for a server variable and a path variable: the path parameter is what the route returns
+			}
+			union++
 			if params[k] != v {
 				same = false
 			}
 		}
-		verifAssert(same && len(params) == len(want)+len(serverVars), "C09 servers sound: substituting the returned parameters into server base and template reproduces the request path")
+		verifAssert(same && len(params) == union, "C09 servers sound: substituting the returned parameters into server base and template reproduces the request path")
 	}
 	if literal != "" && sv != 4 {
 		verifAssert(route.Path == literal, "C09 servers priority: a literal path wins over a templated one")
